@@ -100,6 +100,7 @@ type Intent struct {
 	Meta   any
 	Hold   int  // blocks to keep in the mempool before it may be included
 	Dup    bool // include the same signed bytes twice
+	Retries int
 	// RawBytes, when set, is delivered as is (pre-signed or garbage)
 	RawBytes []byte
 }
@@ -636,7 +637,12 @@ func (w *World) NextBlock(opts BlockOpts) *BlockRecord {
 			var err error
 			bz, err = w.SignTx(in, seqOff[in.Signer.Addr.String()])
 			if err != nil {
+				// the signer's account is not committed yet (e.g. before the first block): try again next block
 				w.Log.Add("sign error intent %d: %v", in.ID, err)
+				if in.Retries < 3 {
+					in.Retries++
+					w.Mempool = append(w.Mempool, in)
+				}
 				continue
 			}
 			seqOff[in.Signer.Addr.String()]++
